@@ -94,7 +94,14 @@ impl Monitor for RevokeMonitor {
 			Obs::Tap(Ev::SignHolder { node, keys, num, .. }) | Obs::Tap(Ev::SignHolderHtlc { node, keys, num, .. }) => {
 				if let Some(s) = self.sides.get(&(*node, *keys)) {
 					v.rep.count("c05_v2_holder_signing_checked");
-					if !s.unsafe_window && !self.unsafe_nodes.contains(node) {
+					// (the harness itself put a revoked commitment of this node on the chain, signed earlier through the
+					// unsafe API: what the node's monitor does with its outputs afterwards is not the node using revoked
+					// state of its own accord, and is outside this property's quantifier)
+					let cheated_for = w.close.as_ref().map(|c| c.revoked && c.broadcaster == *node).unwrap_or(false);
+					if cheated_for {
+						v.rep.count("c05_v2_signings_after_the_harness_broadcast_this_nodes_revoked_commitment");
+					}
+					if !s.unsafe_window && !self.unsafe_nodes.contains(node) && !cheated_for {
 						if let Some(&min_rel) = s.released.iter().min() {
 							if *num >= min_rel {
 								v.violation("C05", "V2-revoked-unused", "node signs a holder commitment or HTLC transaction of a revoked state", format!("node{} signs for commitment #{} although secret #{} was released", node, num, min_rel));
@@ -168,7 +175,8 @@ impl Monitor for RevokeMonitor {
 							if let Some(s) = self.sides.get(&(*n, *keys)) {
 								v.rep.count("c05_v2_broadcast_checked");
 								if let Some(&min_rel) = s.released.iter().min() {
-									if *num >= min_rel && !self.unsafe_nodes.contains(node) {
+									let cheated_for = w.close.as_ref().map(|c| c.revoked && c.broadcaster == *node).unwrap_or(false);
+									if *num >= min_rel && !self.unsafe_nodes.contains(node) && !cheated_for {
 										v.violation("C05", "V2-revoked-unused", &format!("node broadcasts {} of a holder commitment it has revoked", what), format!("node{} broadcasts {} (commitment #{}, secret #{} released)", node, txid, num, min_rel));
 									}
 								}
